@@ -1,6 +1,6 @@
 # Configuration of ./check C19 (fields: see props.d/C06.py).
 PROP = {
-    "regen_files": ["GenConstDefaultDecls.v", "GenDeleg.v"],
+    "regen_files": ["GenConstDefaultDecls.v", "GenDeleg.v", "GenSigs.v"],
     "num": 19,
     "runs": [{"tag": "c19", "bin": "c19"},
              {"tag": "c19-release", "bin": "c19", "profile": "release", "tiers": ["thorough"]}],
